@@ -105,7 +105,7 @@ variable [OfNat K 0] [DecidableEq K]
 @[simp] theorem Impl.lin_lscal (fn : Bool) (a : Impl K) (s : K) : (Impl.lscal fn a s : Impl K).lin = a.lin := rfl
 @[simp] theorem Impl.lin_rscal (fn : Bool) (a : Impl K) (s : K) : (Impl.rscal fn a s : Impl K).lin = a.lin := rfl
 @[simp] theorem Impl.lin_lvec (a : Impl K) (v : Vec K) : (Impl.lvec a v : Impl K).lin = a.lin := rfl
-@[simp] theorem Impl.lin_rvec (fn : Bool) (a : Impl K) (v : Vec K) : (Impl.rvec fn a v : Impl K).lin = (if fn then false else a.lin) := rfl
+@[simp] theorem Impl.lin_rvec (fn : Bool) (a : Impl K) (v : Vec K) : (Impl.rvec fn a v : Impl K).lin = a.lin := rfl
 @[simp] theorem Impl.lin_flvec (a : Impl K) (v : VecLit K) : (Impl.flvec a v : Impl K).lin = a.lin := rfl
 @[simp] theorem Impl.lin_const (d : Sp) (c : Vec K) : (Impl.const d c : Impl K).lin = decide (c 0 = 0) := rfl
 @[simp] theorem Impl.lin_zero (d : Sp) : (Impl.zero d : Impl K).lin = true := rfl
@@ -419,7 +419,6 @@ theorem inv_opMulVec {a c : Impl K} {v : VecLit K} (h : opMulVec a v = some c) (
     simp only [run, ha.1 hf _ j]
   · intro hl
     simp only [Impl.lin] at hl
-    split_ifs at hl
     have h1 := ha.2 hl
     refine ⟨fun t x => ?_, fun x y => ?_⟩
     · have : (fun j => t * x j * v.val j) = fun j => t * (x j * v.val j) := by funext j; ring
@@ -741,9 +740,9 @@ theorem lin_opMul {a b c : Impl K} (h : opMul a b = some c) : c.lin = (a.lin && 
   split_ifs at h; cases h; rfl
 
 theorem lin_opMulVec {a c : Impl K} {v : VecLit K} (h : opMulVec a v = some c) :
-    c.lin = if a.isFn then false else a.lin := by
+    c.lin = a.lin := by
   unfold opMulVec at h
-  split_ifs at h <;> cases h <;> simp_all
+  split_ifs at h; cases h; rfl
 
 theorem lin_opRMulVec {a c : Impl K} {v : VecLit K} (h : opRMulVec v a = some c) :
     c.lin = a.lin := by
